@@ -702,6 +702,7 @@ int main()
       std::fflush(stdout);
       pid_t pid = fork();
       if(pid == 0) {
+      ::alarm(60); // a history / scenario that hangs ends as 'crash signal 14' instead of blocking the check
         child(w);
         std::fflush(stdout);
         _exit(0);
